@@ -133,13 +133,13 @@ def wfStr : Option WF → String
 
 /-- the C01 oracle on the model: encode, read back, compare kind, view, re-encoding -/
 def roundTrip (p : Packet) : String :=
-  match p.encode with
+  match p.encodeG with
   | .bytes b =>
     match readPacket (Reader.contig b) with
     | (.pkt q, r) =>
       if q.kind ≠ p.kind then "rt FAIL kind"
       else if q.view ≠ p.view then "rt FAIL view"
-      else if q.encode ≠ .bytes b then "rt FAIL reencode"
+      else if q.encodeG ≠ .bytes b then "rt FAIL reencode"
       else if r.data ≠ [] then "rt FAIL leftover"
       else "rt ok"
     | (.err _, _) => "rt FAIL err"
@@ -174,11 +174,11 @@ def step (slots : Slots) (line : String) : Slots × String :=
     | some ⟨_, true⟩ => (slots, "view ok")
     | none => (slots, "bad-op")
   | ["ENC", s] => match slots.get? s with
-    | some ⟨p, false⟩ => match p.encode with
+    | some ⟨p, false⟩ => match p.encodeG with
       | .bytes b => (slots, "enc " ++ hexOfBytes b ++ " n=" ++ toString b.length ++ " err=0")
       | .refuse => (slots, "enc - n=0 err=1")
       | .panic => (slots, "enc panic")
-    | some ⟨p, true⟩ => (slots, okOrPanic "enc" (p.encode == .panic))
+    | some ⟨p, true⟩ => (slots, okOrPanic "enc" (p.encodeG == .panic))
     | none => (slots, "bad-op")
   | ["DEC", s, h] => match slots.get? s, bytesOfHex h with
     | some ⟨p, t⟩, some d =>
